@@ -681,8 +681,9 @@ pub fn parse_server_line(content: &[u8]) -> ServerLine {
         return ServerLine::Unknown;
     };
     match w.first().copied() {
+        // Surplus arguments are ignored (the specification does not say they invalidate a line).
         Some("OK") => {
-            if w.len() == 2 && valid_guid(w[1]) {
+            if w.len() >= 2 && valid_guid(w[1]) {
                 ServerLine::OkGuid(w[1].to_string())
             } else {
                 ServerLine::OkBad
@@ -691,7 +692,7 @@ pub fn parse_server_line(content: &[u8]) -> ServerLine {
         Some("REJECTED") => ServerLine::Rejected,
         Some("ERROR") => ServerLine::Error,
         Some("DATA") => ServerLine::Data,
-        Some("AGREE_UNIX_FD") if w.len() == 1 => ServerLine::AgreeUnixFd,
+        Some("AGREE_UNIX_FD") => ServerLine::AgreeUnixFd,
         _ => ServerLine::Unknown,
     }
 }
